@@ -139,6 +139,8 @@ func (k *Keeper) EthereumTx(goCtx context.Context, msg *evmtypes.MsgEthereumTx) 
 	receipt.GasUsed = response.GasUsed
 	receipt.BlockNumber = big.NewInt(ctx.BlockHeight())
 	receipt.TransactionIndex = uint(txIndex)
+	// the log index is a non-consensus field which is not part of the marshalled receipt
+	fillLogIndexes(receipt.Logs, uint(k.GetCumulativeLogCountTransient(ctx, true)))
 
 	receiptSdkEvent, err := evmtypes.GetSdkEventForReceipt(
 		receipt, // receipt
@@ -166,6 +168,13 @@ func (k *Keeper) EthereumTx(goCtx context.Context, msg *evmtypes.MsgEthereumTx) 
 	})
 
 	return response, nil
+}
+
+// fillLogIndexes numbers the logs of a transaction consecutively, starting at the index of its first log within the block.
+func fillLogIndexes(logs []*ethtypes.Log, startLogIndex uint) {
+	for i, log := range logs {
+		log.Index = startLogIndex + uint(i)
+	}
 }
 
 // UpdateParams implements the gRPC MsgServer interface. When an UpdateParams
